@@ -43,11 +43,26 @@ Helpers: `HioModel/Sched/LemmasC02.lean` (namespace `Hio.Sched.C02`).
   statement plus the guard; the witness is stated on the concrete id lists, not as the literal
   negation of the `∃ pre ds`.
 
+## Nested DoDoers, whole lifetime (G)
+`Fits s rt` / `FitsL ss ds` (LemmasC02): the live doer tree embeds, order preserving and recursively,
+into the spec tree (same ids; a DoDoer's live deeds are, in order, a sub-selection of its kids).
+Guard: `Spec.allStepsL stepsNoExtend specs` / `RT.allStepsL stepsNoExtend deeds` (no leaf at any depth
+among the entered doers extends; pools are then never entered).
+`enter_establishes_nested_order`, `cycle_keeps_nested_order_partial` (every scheduler, every cycle),
+`dodoer_yield_keeps_nested_order_partial`, and the close sites `dodoer_raise_closes_in_order_partial`,
+`removed_closed_in_order`, enter failure (in `enter_establishes_nested_order`), parent close
+(`fits_means_reverse_enter_order`, which spells out what `FitsL` means for `closeAllRev`), final stop
+`forced_exit_order_nested_partial`.
+
 ## Not done
-* The whole-lifetime order theorem is proved for the Doist level only (E).  For a nested DoDoer the
-  per-cycle statement (D) holds at every level and the shapes (C) show that what is closed is the
-  zipper `c.pr ++ un`; the induction over a DoDoer's whole life (its deeds stay a sublist of its
-  kids) is not written out.
+* "every forced close anywhere in the run closes a fitting list" is not stated as ONE predicate on the
+  trace `f.evs`: it is the conjunction of the invariant-preservation theorems (the nested schedulers'
+  deques fit at every cycle boundary, by the mutual induction `runCycle_fits`/`resumeGroup_fits`) and
+  the per-close-site theorems, each of which exhibits the closed list `ds` with `FitsL kids ds`.
+* The nested statement relates closed deeds to the kids order of the spec (= the order `enterList`
+  enters them); the bridge to the positions of the `enter` events in the trace is proved at Doist
+  level only (third conjunct of `forced_exit_order_partial`).
+* (F)/the full-strength statement: see above; the witness is on concrete id lists.
 -/
 namespace Hio.Sched
 open C02
@@ -178,6 +193,114 @@ example : topNoExtend okSpecs = true := by decide
 live; exits are 3, 2(6 inside), then the forced stop closes 4 before 1 -/
 example : ((doistDo [] 1 0 none 10 okSpecs).evs.filter (fun e => e.kind == .exit)).map (·.id) = [3, 2, 6, 4, 1] := by
   decide
+
+end Timed
+
+/-! ### (G) nested DoDoers, whole lifetime: at every level and over all cycles the live deeds of a
+scheduler stay an order-preserving sub-selection of the doers it entered (deep no-extend guard) -/
+
+/-- what `FitsL ss ds` (`ds` embeds in order into the specs `ss`, recursively) says about a forced
+close of `ds`: it runs through `ds` from the right, `ds` is in spec (= enter) order, and every closed
+DoDoer in turn closes, between its `exit` and `exitEnd`, a deeds list that `FitsL` its own kids -/
+theorem fits_means_reverse_enter_order (now : τ) (ss : List (Spec τ)) (ds : List (RT τ)) (h : FitsL ss ds) :
+    closeAllRev now ds = (ds.reverse.map (closeRT now)).flatten
+    ∧ (ds.map RT.id).Sublist (ss.map Spec.id)
+    ∧ ∀ d, d ∈ ds → ∃ s, s ∈ ss ∧ Fits s d ∧ d.id = s.id ∧
+        ∀ i t a kids pool, s = .group i t a kids pool →
+          ∃ r t' a' p dd deeds, d = .group i r t' a' p dd deeds ∧ FitsL kids deeds
+            ∧ closeRT now d
+                = ev i .cease now :: ev i .exit now :: (closeAllRev now deeds ++ [ev i .exitEnd now]) := by
+  refine ⟨closeAllRev_eq_flatten now ds, FitsL_ids ss ds h, ?_⟩
+  intro d hd
+  obtain ⟨s, hs, hf⟩ := FitsL_mem ss ds h d hd
+  refine ⟨s, hs, hf, Fits_id s d hf, ?_⟩
+  intro i t a kids pool hsg
+  subst hsg
+  obtain ⟨r, t', a', p, dd, deeds, rfl, hk⟩ := Fits_group_inv i t a kids pool d hf
+  exact ⟨r, t', a', p, dd, deeds, rfl, hk, by simp [closeRT]⟩
+
+example : FitsL nestKids nestDeeds := by simp [FitsL, Fits, nestKids, nestDeeds]
+
+/-- `enter()` establishes the invariant (and hands the deep guard from the specs to the deeds); a
+DoDoer whose kid fails to enter closes the kids entered so far, which fit -/
+theorem enter_establishes_nested_order (now : τ) (specs : List (Spec τ)) :
+    FitsL specs (enterList now specs).2.1
+    ∧ (Spec.allStepsL stepsNoExtend specs = true → RT.allStepsL stepsNoExtend (enterList now specs).2.1 = true)
+    ∧ (∀ i t a kids pool es r, enterSpec now (.group i t a kids pool) = (es, r, true) →
+        ∃ pre ds, es = pre ++ [ev i .exit now] ++ closeAllRev now ds ++ [ev i .exitEnd now] ∧ FitsL kids ds) :=
+  ⟨(enterList_fits now stepsNoExtend specs).1, (enterList_fits now stepsNoExtend specs).2,
+   fun i t a kids pool es r h => enterSpec_group_fail_fits now i t a kids pool es r h⟩
+
+/-- a `remove()` closes (from the right) a sub-selection of the deque, which therefore still fits -/
+theorem removed_closed_in_order (now : τ) (sid : Id) (un : List (RT τ)) (ids : List Id) (c : Cyc τ)
+    (ss : List (Spec τ)) (hf : FitsL ss (c.pr ++ un)) :
+    ∃ ds, (removeOp now sid un ids c).1 = ev sid .rmBeg now :: (closeAllRev now ds ++ [ev sid .rmEnd now])
+      ∧ FitsL ss ds := by
+  obtain ⟨ds, h1, h2⟩ := removeOp_closes_sublist now sid un ids c
+  exact ⟨ds, h1, FitsL_sublist ss h2 hf⟩
+
+section Timed
+variable [Add τ] [LE τ] [DecidableRel (α := τ) (· ≤ ·)] [OfNat τ 0] [BEq τ]
+
+/-- one pass of `recur` of ANY scheduler (Doist or DoDoer) keeps the invariant and the deep guard -/
+theorem cycle_keeps_nested_order_partial (pool : List (Spec τ)) (now stock : τ) (sid : Id)
+    (un : List (RT τ)) (c : Cyc τ) (es : List (Ev τ)) (un' : List (RT τ)) (c' : Cyc τ) (x : Option Exn)
+    (hun : RT.allStepsL stepsNoExtend un = true) (hpr : RT.allStepsL stepsNoExtend c.pr = true)
+    (h : runCycle pool now stock sid un c = (es, un', c', x)) :
+    RT.allStepsL stepsNoExtend (c'.pr ++ un') = true
+    ∧ ∀ ss, FitsL ss (c.pr ++ un) → FitsL ss (c'.pr ++ un') := by
+  have := runCycle_fits now pool stock sid un c hun hpr
+  rw [h] at this
+  exact this
+
+example : RT.allStepsL stepsNoExtend nestDeeds = true := by decide
+
+/-- a DoDoer that yields after its cycle still fits every spec it fitted before -/
+theorem dodoer_yield_keeps_nested_order_partial (now : τ) (i : Id) (r tock : τ) (always : Bool)
+    (pool : List (Spec τ)) (doers : List Id) (deeds : List (RT τ)) (es : List (Ev τ)) (rt' : RT τ) (t : τ)
+    (hg : RT.allStepsL stepsNoExtend deeds = true)
+    (h : resumeGroup now (.group i r tock always pool doers deeds) = (es, .yielded rt' t)) :
+    rt'.allSteps stepsNoExtend = true
+    ∧ ∀ s, Fits s (.group i r tock always pool doers deeds) → Fits s rt' := by
+  have := resumeGroup_fits now (.group i r tock always pool doers deeds)
+  dsimp only at this
+  exact this hg rt' t (by rw [h])
+
+example : ∃ es rt t, resumeGroup 0 (.group 2 0 0 false [] [3] [.leaf 3 0 [y0, y0]]) = (es, .yielded rt t) :=
+  ⟨_, _, _, rfl⟩
+
+/-- a DoDoer whose `do` raises in mid cycle (here possibly because a DoDoer nested in it raised) closes,
+between its `exit` and `exitEnd`, a deeds list that fits its kids: reverse enter order, recursively -/
+theorem dodoer_raise_closes_in_order_partial (now : τ) (i : Id) (r tock : τ) (always : Bool)
+    (pool : List (Spec τ)) (doers : List Id) (deeds : List (RT τ)) (es : List (Ev τ)) (x : Exn)
+    (kids : List (Spec τ))
+    (hg : RT.allStepsL stepsNoExtend deeds = true) (hf : FitsL kids deeds)
+    (h : resumeGroup now (.group i r tock always pool doers deeds) = (es, .raised x)) :
+    ∃ pre ds, es = pre ++ [ev i .exit now] ++ closeAllRev now ds ++ [ev i .exitEnd now]
+      ∧ FitsL kids ds ∧ RT.allStepsL stepsNoExtend ds = true :=
+  resumeGroup_raised_fits now i r tock always pool doers deeds es x kids hg hf h
+
+/-- two levels: the inner DoDoer 4 raises in mid cycle (5 done and removed, 7 unvisited), so 2 raises -/
+example : ∃ es, resumeGroup 0 (.group 2 0 0 false [] [3, 4, 8] nestDeeds) = (es, .raised .err) := ⟨_, rfl⟩
+
+/-- whole run, deep guard: the final stop closes deeds that fit `specs`; together with the four
+theorems above (every cycle of every scheduler keeps `FitsL`, every close site closes a fitting list)
+forced exits are in reverse enter order at every depth -/
+theorem forced_exit_order_nested_partial (pool : List (Spec τ)) (tock start : τ) (limit : Option τ)
+    (fuel : Nat) (specs : List (Spec τ)) (hg : Spec.allStepsL stepsNoExtend specs = true) :
+    topNoExtend specs = true
+    ∧ ∃ pre ds, (doistDo pool tock start limit fuel specs).evs
+                  = pre ++ stopEvs (doistDo pool tock start limit fuel specs).tyme ds
+        ∧ FitsL specs ds ∧ (ds.map RT.id).Sublist (specs.map Spec.id) := by
+  refine ⟨topNoExtend_of_deep specs hg, ?_⟩
+  obtain ⟨pre, ds, h1, h2, _⟩ := doistDo_fits pool tock start limit fuel specs hg
+  exact ⟨pre, ds, h1, h2, FitsL_ids specs ds h2⟩
+
+example : Spec.allStepsL stepsNoExtend nestSpecs = true := by decide
+/-- test (not the unbounded claim): in cycle 2 leaf 6 removes 5 and raises: 4 closes 7, 2 closes 8 then 3,
+the Doist closes 9 then 1 -/
+example : ((doistDo [] 1 0 none 10 nestSpecs).evs.filter (fun e => e.kind == .exit)).map (·.id)
+    = [5, 6, 4, 7, 2, 8, 3, 9, 1] := by decide
 
 end Timed
 
